@@ -24,11 +24,24 @@ func soupPick(t *rapid.T, label string, from []string) string {
 	return from[rapid.IntRange(0, len(from)-1).Draw(t, label)]
 }
 
+// soupIdent picks an identifier; once in a while a letter of some other script is glued on, also
+// directly behind the keyword-like prefix "task".
+func soupIdent(t *rapid.T, label string) string {
+	id := soupPick(t, label, soupIdents)
+	switch rapid.IntRange(0, 11).Draw(t, label+"_wide") {
+	case 0:
+		return id + string(WideLetter(t, label+"_letter"))
+	case 1:
+		return "task" + string(WideLetter(t, label+"_letter"))
+	}
+	return id
+}
+
 func soupArgs(t *rapid.T, b *strings.Builder) {
 	n := rapid.IntRange(0, 3).Draw(t, "nargs")
 	for i := 0; i < n; i++ {
 		if rapid.IntRange(0, 2).Draw(t, "argkind") == 0 {
-			b.WriteString(soupPick(t, "argid", soupIdents))
+			b.WriteString(soupIdent(t, "argid"))
 		} else {
 			b.WriteString(soupPick(t, "argstr", soupStrings))
 		}
@@ -69,7 +82,7 @@ func Soup(t *rapid.T) string {
 			b.WriteString("#")
 			b.WriteString(soupPick(t, "comment", soupComments))
 		case 5, 6, 7, 8:
-			b.WriteString(soupPick(t, "var", soupIdents))
+			b.WriteString(soupIdent(t, "var"))
 			b.WriteString(soupPick(t, "sp", soupSp))
 			if rapid.IntRange(0, 11).Draw(t, "declare") != 0 {
 				b.WriteString(":=")
@@ -77,9 +90,9 @@ func Soup(t *rapid.T) string {
 			b.WriteString(soupPick(t, "sp", soupSp))
 			switch rapid.IntRange(0, 5).Draw(t, "rhs") {
 			case 0:
-				b.WriteString(soupPick(t, "rhsid", soupIdents))
+				b.WriteString(soupIdent(t, "rhsid"))
 			case 1, 2:
-				b.WriteString(soupPick(t, "fn", soupIdents))
+				b.WriteString(soupIdent(t, "fn"))
 				b.WriteString("(")
 				soupArgs(t, &b)
 				if rapid.IntRange(0, 9).Draw(t, "fnrparen") != 0 {
@@ -96,7 +109,7 @@ func Soup(t *rapid.T) string {
 		default:
 			b.WriteString("task")
 			b.WriteString(soupPick(t, "sp", soupSp))
-			b.WriteString(soupPick(t, "tname", soupIdents))
+			b.WriteString(soupIdent(t, "tname"))
 			b.WriteString(soupPick(t, "sp", soupSp))
 			if rapid.IntRange(0, 14).Draw(t, "lparen") != 0 {
 				b.WriteString("(")
@@ -114,7 +127,7 @@ func Soup(t *rapid.T) string {
 			case 1:
 				b.WriteString("->")
 				b.WriteString(soupPick(t, "sp", soupSp))
-				b.WriteString(soupPick(t, "outid", soupIdents))
+				b.WriteString(soupIdent(t, "outid"))
 			case 2:
 				b.WriteString("->")
 				b.WriteString(soupPick(t, "sp", soupSp))
